@@ -243,3 +243,44 @@ PROPS["C02"]["quick"].append({"engine": "L", "prop": "C02", "scenarios": loop_sc
 PROPS["C02"]["thorough"].append({"engine": "L", "prop": "C02", "scenarios": loop_scenarios("thorough", panics=False), "timeout": 3000})
 PROPS["C03"]["quick"].append({"engine": "L", "prop": "C03", "scenarios": c03_loop_scenarios("quick")})
 PROPS["C03"]["thorough"].append({"engine": "L", "prop": "C03", "scenarios": c03_loop_scenarios("thorough"), "timeout": 3000})
+
+
+def tally_scenarios(tier):
+    out = []
+    codes = (0, 1, 2, 3, 4)
+    # two threads x two operations each
+    small = (0, 1, 2) if tier == "quick" else codes
+    for a in itertools.product(small, repeat=2):
+        for b in itertools.product(small, repeat=2):
+            out.append({"kind": "tally", "threads": 2, "ops": [list(a), list(b)], "pb": None})
+    # three threads x one operation each
+    for ops in itertools.product(codes if tier == "thorough" else small, repeat=3):
+        out.append({"kind": "tally", "threads": 3, "ops": [[o] for o in ops], "pb": None})
+    if tier == "thorough":
+        for a in itertools.product((0, 1, 3), repeat=3):
+            out.append({"kind": "tally", "threads": 2, "ops": [list(a), [2, 1, 0]], "pb": None})
+        out.append({"kind": "tally", "threads": 4, "ops": [[0, 1], [2], [3], [4, 0]], "pb": 3})
+    return out
+
+
+prop("C09",
+     quick=[{"engine": "S", "bin": "c09", "parts": 4}],
+     thorough=[{"engine": "S", "bin": "c09", "parts": 4}],
+     assumptions=[
+         "request sequences up to depth 3; layouts: sizes {0,1,8,4096,2^40,isize::MAX-4095} x alignments {1,8,4096} at depth 1, a reduced set at depth 2-3",
+         "'never allocates' is decided for the enumerated thread phases on Linux / thread_local!; the macOS pthread_key path is not compiled here",
+     ],
+     technique="bounded-exhaustive enumeration of allocator request sequences x scripted return values x thread phases against a logging mock allocator, with a tripwire global allocator (public API only)",
+     text="Every request of the alphabet (depth 1), every pair over a reduced alphabet and every triple over one layout is issued through the real AllocProfiler<Mock> on a fresh thread, a warmed-up thread and inside a TLS destructor during thread exit (registered before / after first use); the mock's call log must equal the request sequence argument for argument, every returned pointer the scripted one (null included), and the tripwire global allocator must see no allocation by that thread meanwhile.",
+     note="Trusted: the mock and tripwire in harness/mc-seq/src/bin/c09.rs (allocation-free by construction: fixed static arrays).", engine="S")
+
+prop("C10",
+     quick=[{"engine": "S", "bin": "c10", "parts": 8}, {"engine": "L", "prop": "C10", "scenarios": tally_scenarios("quick"), "timeout": 300}],
+     thorough=[{"engine": "S", "bin": "c10", "parts": 41, "timeout": 3000}, {"engine": "L", "prop": "C10", "scenarios": tally_scenarios("thorough"), "timeout": 900}],
+     assumptions=[
+         "operation sizes from {0,1,7,4096,2^40}; search depth 6 (7 thorough) from the cleared state with `clear` as a transition; the invariant is re-established from scratch (whole-history reference) in every reached state, so longer sequences are covered inductively per step plus four explicit histories of 5000 (20000) operations",
+         "cross-thread clause: 2-3 (4 thorough, preemption bound 3) threads with 1-3 operations each under loom, every op-level interleaving; thread counts up to 8 are not enumerated",
+     ],
+     technique="explicit-state breadth-first search with de-duplication over the real ThreadAllocInfo driven through the real AllocProfiler<Mock>; whole-history reference model in every state; loom DPOR for the per-thread clause",
+     text="BFS over the real thread-local tally: transitions are alloc / alloc_zeroed / dealloc / realloc over five sizes plus clear, applied by the real profiler after setting the thread-local to the state; in every reached state all four (count, bytes) pairs, the live balances and the peak count / peak size must equal a reference recomputed from the whole history (prefix-balance scan). Under loom, threads drive the real profiler concurrently and each thread's tally must equal its own script.",
+     note="Trusted: hook tally_get/tally_set (plain-data mirror of ThreadAllocInfo), the mock allocator, the reference in harness/mc-seq/src/bin/c10.rs; loom thread-local facade for the cross-thread clause.", engine="S+L")
